@@ -20,7 +20,7 @@ type memoEntry struct {
 }
 
 func (i *interpreter) memoKey(fn *ssa.Function, args []value) (string, bool) {
-	if !i.memoOn || !memoFns[fn.String()] || len(args) != 2 {
+	if !i.memoOn || len(args) != 2 || !i.eng.funcInfoOf(fn).memo {
 		return "", false
 	}
 	s, ok := args[0].(string)
@@ -30,7 +30,7 @@ func (i *interpreter) memoKey(fn *ssa.Function, args []value) (string, bool) {
 	if opts, ok := args[1].([]value); !ok || len(opts) != 0 {
 		return "", false
 	}
-	return fn.String() + "\x00" + s, true
+	return i.eng.funcInfoOf(fn).name + "\x00" + s, true
 }
 
 type copier struct {
